@@ -80,6 +80,26 @@ def run(chk):
             chk.sample(dict(case=case, events=[e[:40] for e in res.get('events', [])], phase=res.get('phase')))
             if len(chk.cov['samples']) >= 2:
                 break
+    # "the same server object can then be entered and used again" — AsyncServer on ANOTHER event loop (a second
+    # asyncio.run): the C16 scenario's two_loops cases (a prior session of the same object on another loop with
+    # callers waiting for room, then the session that is compared with Server); any disagreement or exception
+    # there is a re-entry failure
+    import scen_asrv
+    tl = []
+    while len(tl) < (150 if not big else 2000):
+        c = scen_asrv.gen_case(chk.rng, chk.tier, '')
+        if c['kind'] in ('srv_call', 'srv_stream'):
+            c['two_loops'] = True
+            tl.append(c)
+    res_tl = chk.run_cases('scen_asrv', tl, sched=True)
+    chk.account(scen_asrv, res_tl, 'E1-detsched+cooploop')
+    for case, res in res_tl:
+        hits = [m for m in res.get('monitors', []) if m['prop'] == 'C16' and
+                m['rule'] in ('unexpected-exception', 'async-differs-from-sync', 'async-differs-from-spec', 'async-hangs-sync-does-not')]
+        if hits:
+            chk.violations.append(dict(rule='reenter-other-loop', detail='AsyncServer used again on another event loop: ' + hits[0]['detail'][:500],
+                                       key='reenter-other-loop:asyncserver', case=case, events=res.get('events'), size=core._case_size(case)))
+    chk.cov.setdefault('distribution', {})['asyncserver_reentered_on_another_loop'] = len(res_tl)
     if chk.corr_breaks and not chk.violations:
         # search around the disagreeing cases for a failing input
         more = []
@@ -147,6 +167,15 @@ ASSUMPTIONS = [
 
 def replay(chk, data):
     case = data['case']
+    if case.get('kind') in ('srv_call', 'srv_stream'):
+        res = chk.run_cases('scen_asrv', [case], sched=True)
+        _c, r = res[0]
+        hits = [m for m in r.get('monitors', []) if m['prop'] == 'C16']
+        print(json.dumps(dict(monitors=r.get('monitors')), default=str)[:2000])
+        if hits:
+            print(f'VIOLATION property={chk.prop} replay=(replayed)')
+            return 1
+        return 0
     res = chk.run_cases(SCEN, [case], sched='proc' not in case)
     case, r = res[0]
     hits = [m for m in r['monitors'] if m['prop'] == chk.prop]
